@@ -177,7 +177,8 @@ type session struct {
 	tally   map[string]int // every message received so far, by command
 	getdata [][]byte       // payloads of the getdata messages received so far
 
-	wanted        []byte // the requested block (payload of its block message)
+	altHeaders    *headers.Repository // repository behind the alternate header handler, if one is installed
+	wanted        []byte              // the requested block (payload of its block message)
 	blockCalls    int32
 	seenBlockCall int32
 }
